@@ -587,7 +587,6 @@ func c17Handler(run *mon.Run, rng *mon.Rand, thorough bool) {
 				if r := l1.Deliver(ophosttypes.NewMsgInitiateTokenDeposit(user.String(), 1, "l2addr", big, nil)); r.Class != sim.OK {
 					panic("deposit failed: " + r.ErrString())
 				}
-				ws[i].Amount, big = ws[i].Amount, big
 			}
 		}
 		// fund escrow through a real deposit
